@@ -660,7 +660,6 @@ func TestVerif_C37(t *testing.T) {
 			// reference points first (they are requests of the space themselves)
 			runOne(c37Req{Balance: "ample"})
 			runOne(c37Req{Value: 1, Balance: "ample"})
-			runOne(c37Req{Value: 50, Balance: "ample"})
 			for _, q := range mainShapes[1:] {
 				if r.Expired() {
 					return
@@ -668,6 +667,7 @@ func TestVerif_C37(t *testing.T) {
 				runOne(q)
 			}
 			if len(p.names) <= 1 && gridProgs[name] {
+				runOne(c37Req{Value: 50, Balance: "ample"})
 				for _, q := range gridShapes {
 					if r.Expired() {
 						return
